@@ -3,7 +3,7 @@ import os
 import resource
 import tomllib
 
-from lib import common
+from lib import common, e2e
 from lib.common import coq_bytes
 
 IMPORTS = ("From Verif Require Import Model.Base Model.Ops Model.Disasm Model.Listing.\n"
@@ -176,6 +176,59 @@ def oracle(impl_answer, bs, table):
     return problems
 
 
+def binaries_round_trip(run, rng, table, plain):
+    """The property through the real tools: bytes -> `disease` (clap options, InputSource, Separator,
+    DisplayOp, Offset) -> listing text -> `eas` (Ingest, HexWrite) -> hex.  Returns the number of
+    violations recorded.  In this sandbox the etk-4byte database is an emptied file, so `disease` panics
+    as soon as it prints a push (DisplayOp looks every immediate up): codes with pushes are tried once
+    and skipped if that is what happens."""
+    ok, out = e2e.build_bins(["disease", "eas"])
+    if not ok:
+        run.violation_unproved("build of the disease/eas binaries", out[-2000:])
+        return 0
+    sc = e2e.Scratch()
+    found = tried = 0
+    try:
+        rc, out = e2e.disease(sc, bytes([0x60, 0x01]), "code")
+        pushes_ok = rc == 0
+        if not pushes_ok:
+            run.notes.append("disease cannot print push instructions in this sandbox (etk-4byte database emptied: "
+                             + next((l.strip() for l in out.splitlines() if "panicked" in l or "Err" in l), out.strip()[-120:])[:160]
+                             + "); end-to-end round trip restricted to push-free code")
+        n = 120 if run.tier == "thorough" else 30
+        for i in range(n):
+            if pushes_ok and i % 2:
+                code = bytes(rand_code(rng, plain, rng.choice([1, 3, 10, 60])))
+            else:
+                code = bytes(rng.choice(plain) for _ in range(rng.choice([1, 2, 5, 17, 64, 300])))
+            mode = ["code", "hex", "bin"][i % 3]
+            rc, text = e2e.disease(sc, code, mode)
+            tried += 1
+            problems = []
+            items = e2e.parse_listing(text) if rc == 0 else None
+            if items is None:
+                problems.append(f"disease ({mode}) failed or printed an unreadable listing: rc={rc} {text[-300:]!r}")
+            else:
+                want, _ = py_decode(list(code))
+                if [o for o, _, _ in items] != [o for o, _, _ in want]:
+                    problems.append(f"offsets {[o for o, _, _ in items][:20]} are not the prefix sums {[o for o, _, _ in want][:20]}")
+                src = "".join(m + (" " + imm if imm else "") + "\n" for _, m, imm in items)
+                rc2, hexout = e2e.eas(sc, src, to_file=(i % 4 == 0))
+                got = hexout.strip()
+                if rc2 != 0 or got != code.hex():
+                    problems.append(f"eas gives {got[:120]!r} (rc={rc2}) for the listing of {code.hex()[:120]}")
+            if problems:
+                found += 1
+                if found <= 2:
+                    run.violation(dict(property="C03", input_hex=code.hex(), via="disease/eas binaries", mode=mode, problems=problems,
+                                       replay=f".cache/target/debug/disease -c 0x{code.hex()}"))
+    finally:
+        sc.cleanup()
+    run.corr["cases"] += tried
+    run.corr["distribution"]["binaries-round-trip"] = tried
+    return found
+
+
 def raise_stack_limit():
     """coqc prints the evaluated answer with a recursive printer: an answer of ~30k characters
     (a few hundred instructions) overflows the default 8 MiB stack.  Children inherit the limit."""
@@ -280,6 +333,7 @@ def check(run):
                 run.violation(dict(property="C03", input_hex=h, impl=c["impl"], problems=problems,
                                    replay=f"echo 'dis_listing {h}' | .cache/target/debug/etk-vh"))
     run.notes.append(f"property oracle evaluated on {nprop} complete defined-only inputs")
+    found += binaries_round_trip(run, rng, table, plain)
     if (not proof_ok or dis) and not found:
         if dis:
             d = dis[0]
